@@ -816,6 +816,15 @@ static void run_script(const string &script)
 			g_schema_sized[sid].clear();
 			g_schema[sid] = NULL;
 			api = false;
+		} else if (c == "schemasum") {
+			// checksum over the caller's declaration memory (every block of schema <sid>): the library must not write there
+			long sid = N(1);
+			unsigned long long h = 1469598103934665603ULL;
+			for (auto &b : g_schema_sized[sid])
+				for (size_t k = 0; k < b.second; k++)
+					h = (h ^ ((unsigned char *)b.first)[k]) * 1099511628211ULL;
+			o += ",\"sum\":\"" + std::to_string(h) + "\"";
+			api = false;
 		} else if (c == "env") {
 			Arg n = A(1), v = A(2);
 			if (v.null)
@@ -977,6 +986,8 @@ static void run_script(const string &script)
 			apply_errno();
 			static unsigned alt = 0;
 			bool conv = idx == 0 && (alt++ & 1); // every other index-0 call goes through the convenience wrapper
+			if (t.size() > 5 && idx == 0)            // ... unless the script says which form to use: w(rapper) / n (indexed)
+				conv = t[5] == "w";
 			if (c == "setint")
 				rc = conv ? cfg_setint(cfg, cs(path), strtol(v.s.c_str(), NULL, 0)) : cfg_setnint(cfg, cs(path), strtol(v.s.c_str(), NULL, 0), idx);
 			else if (c == "setfloat")
